@@ -166,83 +166,6 @@ func init() {
 		return map[string]any{"cycle": out}, nil
 	})
 
-	register("analysis.pathfn", func(req map[string]any) (any, error) {
-		fn, _ := req["fn"].(string)
-		switch fn {
-		case "within":
-			return map[string]any{"r": analysis.VerifPathWithin(b2s(req["p"]), b2s(req["d"]))}, nil
-		case "overlap":
-			return map[string]any{"r": analysis.VerifPathsOverlap(b2s(req["p"]), b2s(req["d"]))}, nil
-		case "escape":
-			return map[string]any{"r": analysis.VerifPathTriesToEscape(b2s(req["p"]))}, nil
-		case "withinws":
-			r, err := analysis.VerifIsWithinWorkspace(b2s(req["ws"]), b2s(req["pkg"]), b2s(req["rel"]))
-			if err != nil {
-				return map[string]any{"r": "error"}, nil
-			}
-			return map[string]any{"r": r}, nil
-		case "cleanout":
-			return map[string]any{"r": s2b(analysis.VerifCleanOutputPath(b2s(req["pkg"]), b2s(req["out"])))}, nil
-		}
-		return nil, fmt.Errorf("unknown fn %s", fn)
-	})
-
-	bareGraph := func(req map[string]any) (*dag.DirectedTargetGraph, map[label.TargetLabel]model.BuildNode, error) {
-		var nodes []model.BuildNode
-		byLabel := map[label.TargetLabel]model.BuildNode{}
-		for _, nv := range anyList(req["nodes"]) {
-			nm, _ := nv.(map[string]any)
-			t := &model.Target{Label: getLabel(nm["label"])}
-			for _, d := range anyList(nm["deps"]) {
-				t.Dependencies = append(t.Dependencies, getLabel(d))
-			}
-			nodes = append(nodes, t)
-			byLabel[t.Label] = t
-		}
-		g := dag.NewDirectedGraphFromTargets(nodes...)
-		for _, n := range nodes {
-			for _, d := range n.GetDependencies() {
-				if err := g.AddEdge(byLabel[d], n); err != nil {
-					return nil, nil, err
-				}
-			}
-		}
-		return g, byLabel, nil
-	}
-
-	register("analysis.ancestors", func(req map[string]any) (any, error) {
-		g, byLabel, err := bareGraph(req)
-		if err != nil {
-			return nil, err
-		}
-		var qs []model.BuildNode
-		for _, q := range anyList(req["queries"]) {
-			qs = append(qs, byLabel[getLabel(q)])
-		}
-		sets := []any{}
-		for _, set := range analysis.VerifAncestorSets(g, qs) {
-			ls := []any{}
-			for _, l := range set {
-				ls = append(ls, jLabel(l))
-			}
-			sets = append(sets, ls)
-		}
-		return map[string]any{"sets": sets}, nil
-	})
-
-	register("analysis.ordered", func(req map[string]any) (any, error) {
-		g, byLabel, err := bareGraph(req)
-		if err != nil {
-			return nil, err
-		}
-		var pairs [][2]model.BuildNode
-		for _, pv := range anyList(req["pairs"]) {
-			p := anyList(pv)
-			pairs = append(pairs, [2]model.BuildNode{byLabel[getLabel(p[0])], byLabel[getLabel(p[1])]})
-		}
-		return map[string]any{"r": analysis.VerifOrderedQueries(g, pairs)}, nil
-	})
-
 	register("paths.clean", func(req map[string]any) (any, error) {
 		return map[string]any{"r": s2b(filepath.Clean(b2s(req["p"])))}, nil
 	})
